@@ -177,26 +177,51 @@ def _gcc(src, exe):
 
 def gcc_sizes(decls, workdir, tag):
     """decls: [text of `getctype(T, 'v')`].  -> [size or ('rejected', message)] per declaration.
-    All declarations go into one file; only if gcc refuses it are they compiled one by one."""
-    def program(items):
-        body = "".join('  { %s; printf("%d %%zu\\n", sizeof(v)); }\n' % (d, i) for i, d in items)
-        return C_HEAD + "int main(void) {\n" + body + "  return 0;\n}\n"
+    All declarations go into one file, one per line; the declarations on the lines for which gcc
+    reports an error are recorded as rejected and taken out, and the rest is compiled again."""
+    import re
     exe = os.path.join(workdir, "g%s" % tag)
     res = [None] * len(decls)
-    ok, msg = _gcc(program(list(enumerate(decls))), exe)
-    groups = [list(enumerate(decls))] if ok else [[(i, d)] for i, d in enumerate(decls)]
-    for grp in groups:
-        if not ok:
-            ok1, msg1 = _gcc(program(grp), exe)
-            if not ok1:
-                res[grp[0][0]] = ("rejected", " | ".join(x for x in msg1.splitlines() if "error" in x)[:300])
-                continue
+    live = list(range(len(decls)))
+    head = C_HEAD + "int main(void) {\n"
+    nhead = head.count("\n")
+    for _round in range(8):
+        src = head + "".join('{ %s; printf("%d %%zu\\n", sizeof(v)); }\n' % (decls[i], i) for i in live)
+        src += "return 0;\n}\n"
+        ok, msg = _gcc(src, exe)
+        if ok:
+            break
+        hit = {}
+        for line in msg.splitlines():
+            m = re.match(r".*?\.c:(\d+):\d+: error: (.*)", line)
+            if m:
+                k = int(m.group(1)) - nhead - 1
+                if 0 <= k < len(live):
+                    hit.setdefault(live[k], m.group(2)[:200])
+        if not hit:
+            raise InfraError("gcc failed without naming a declaration line:\n" + msg[-1500:])
+        for i, why in hit.items():
+            res[i] = ("rejected", why)
+        live = [i for i in live if i not in hit]
+        if not live:
+            return res
+    else:
+        raise InfraError("gcc still fails after removing the rejected declarations")
+    def run_exe():
         p = subprocess.run([exe], stdout=subprocess.PIPE, text=True)
         if p.returncode != 0:
             raise InfraError("compiled sizeof program failed")
         for line in p.stdout.splitlines():
             i, sz = line.split()
             res[int(i)] = int(sz)
+    run_exe()
+    # an error can spill over to the following lines: a few rejected declarations are each confirmed alone
+    rejected = [i for i, r in enumerate(res) if isinstance(r, tuple)]
+    if len(rejected) <= 12:
+        for i in rejected:
+            ok, msg = _gcc(head + '{ %s; printf("%d %%zu\\n", sizeof(v)); }\nreturn 0;\n}\n' % (decls[i], i), exe)
+            if ok:
+                run_exe()
     if any(r is None for r in res):
         raise InfraError("sizeof program printed too little")
     return res
